@@ -1,5 +1,6 @@
 CONSTANTS P = 83  A = 1  B = 7  Gx = 0  Gy = 16  N = 79  Mode = "recover"  RMax = 84
-CONSTANT ESet <- EAll
+CONSTANT ESet <- ETwo
+CONSTANT SSet <- SFew
 CONSTANT DSet <- DAll
 SPECIFICATION Spec
 INVARIANT Holds
